@@ -404,6 +404,10 @@ class Runner:
                 extra = [a for a in self.prop_info["axioms"] if a.split(".")[-1] not in {x.split(".")[-1] for x in STDLIB_AXIOMS}]
                 if extra:
                     self.build_problems.append(("forbidden", "non-stdlib axiom", ", ".join(extra)))
+        elif not any(k == "theorem" for k, _, _ in self.build_problems):
+            # the property file was built a moment ago but is stale again (a dependency changed under us):
+            # no theorem was re-checked in this run, which must never read as OK
+            self.build_problems.append(("theorem", "Properties/%s.v" % pid, "compiled property file is not up to date with its dependencies"))
         # thorough tier: the independent checker re-checks the compiled property file and everything it depends on
         self.coqchk = None
         if self.tier == "thorough" and self.prop_info and self.prop_info.get("compiled") and os.environ.get("VERIF_NO_COQCHK") != "1":
